@@ -1,4 +1,4 @@
-\* the code as it is: Wait holds b.mu while blocked; StopReturns must be violated
+\* the code before b05c09e: Wait holds b.mu while blocked; StopReturns must be violated
 SPECIFICATION Spec
 CONSTANTS
   Pubs = {"p1"}
@@ -17,9 +17,11 @@ CONSTANTS
   AllowUnsub = FALSE
   AllowParentCancel = FALSE
   CtxCancels = 0
+  Redundant = 0
   WaitLocksMu = TRUE
   StatsBuffered = TRUE
   RecvWaitsFirst = FALSE
   KF_UnsubWindow = TRUE
+  CtlBuf = 0
 INVARIANTS TypeOK StopReturns
 CHECK_DEADLOCK FALSE
